@@ -44,7 +44,7 @@ def bootstrap(load_parser=True):
     mod = None
     if load_parser:
         from depsim import translit, cemu
-        cemu.lib()
+        cemu.load_all()
         pyx = os.path.join(repo_root(), 'depccg', 'parsing.pyx')
         with open(pyx, encoding='utf-8') as f:
             source = f.read()
